@@ -81,13 +81,13 @@ def build_coq(targets):
 
 REFINE = {
     # property -> Refine/<file>.v whose lemmas tie the generated code (rs2v) to the model
-    "C01": ["SigCore", "SigSchemes", "WSig", "WEnum"], "C02": ["SigCore", "SigSchemes", "WSig", "WCodec"],
+    "C01": ["SigCore", "SigSchemes", "WSig", "WEnum", "G01"], "C02": ["SigCore", "SigSchemes", "WSig", "WCodec"],
     "C03": ["HelpersR", "Consts", "SigSchemes", "WSig", "WEnum"],
     "C04": ["HelpersR", "SigCore", "SigSchemes", "PoK", "SignCrypt", "TimeLock", "ElGamal", "WSig", "WPoK", "WEnc"],
     "C05": ["Consts", "SigSchemes", "WSig", "WPoK", "WEnc"],
-    "C06": ["SigCore", "SigSchemes", "WSig"], "C07": ["SigSchemes", "WSig"], "C08": ["SigCore", "WSig"],
-    "C09": ["SigSchemes", "WSig", "WCodec"], "C10": ["PoK", "WPoK"], "C11": ["HelpersR", "SignCrypt", "WEnc"],
-    "C12": ["SignCrypt", "SigCore", "WEnc"], "C13": ["HelpersR", "TimeLock", "WEnc"], "C14": ["ElGamal", "Consts", "WEnc"],
+    "C06": ["SigCore", "SigSchemes", "WSig", "G06"], "C07": ["SigSchemes", "WSig"], "C08": ["SigCore", "WSig"],
+    "C09": ["SigSchemes", "WSig", "WCodec", "G09"], "C10": ["PoK", "WPoK", "G10"], "C11": ["HelpersR", "SignCrypt", "WEnc", "G11"],
+    "C12": ["SignCrypt", "SigCore", "WEnc"], "C13": ["HelpersR", "TimeLock", "WEnc", "G13"], "C14": ["ElGamal", "Consts", "WEnc"],
     "C15": ["HelpersR", "Consts", "WCodec", "WEnum"], "C16": ["HelpersR", "Consts", "WCodec", "WEnum"], "C17": ["HelpersR", "PoK", "SignCrypt", "TimeLock", "WSig", "WPoK", "WEnc", "WCodec", "WEnum"],
     "C18": ["HelpersR", "Consts", "PoK", "SignCrypt", "TimeLock", "ElGamal", "WEnc", "WCodec"], "C19": ["HelpersR"],
     "C20": ["PoK", "SignCrypt", "TimeLock", "WSig", "WPoK", "WEnc", "WEnum"],
@@ -237,7 +237,7 @@ def coq_obligations(prop):
         for rf in refine_files:
             vfile = os.path.join(COQ, "Refine", rf + ".v")
             rsrc = open(vfile).read()
-            rnames = re.findall(r"^\s*(?:Lemma|Theorem)\s+((?:r_|source_|model_)\w+)", rsrc, re.M)
+            rnames = re.findall(r"^\s*(?:Lemma|Theorem)\s+((?:r_|source_|model_|generated_)\w+)", rsrc, re.M)
             rok, rlog = build_vo_logged("Refine/%s.vo" % rf)
             rclosed = rlog.count("Closed under the global context")
             expected = len(re.findall(r"^Print Assumptions", rsrc, re.M))
